@@ -26,7 +26,11 @@ Lean re-checks the decidable obligation `check prog = linC|antiC|linR` on each; 
   8. family tie: for the structural primitives (add, sub, neg, slice, pad, concatenate, reduce_sum, cumsum, rev,
      broadcast_in_dim, transpose, reshape, squeeze, select_n, dynamic_slice, ...) the JAX primitive instance equals,
      exactly on dyadic operands, the Lean sparse-matrix map `applyDescG rows` that is PROVED linear
-     (Proofs/JaxprArray.lean), with `rows` computed from the static parameters (harness/jaxpr_family.py).
+     (Proofs/JaxprArray.lean), with `rows` computed from the static parameters (harness/jaxpr_family.py),
+  9. whole programs under the proved family (round 3): Lean's `run` with the interpretation `famDen` - sparse matrices,
+     sparse bilinear forms (mul / dot_general / conv), quotients, real parts, conjugation; sound at C for EVERY table
+     (Proofs/JaxprFamily.lean) - executed at complex floats must reproduce the operator; the evidence reports how many
+     translated programs consist of family instances only ("proved outright") versus "proved given the primitive table".
 `search()` looks for a concrete failing (x, y, a, b) on the real operator of a broken obligation.
 """
 
@@ -247,7 +251,51 @@ def _inplace_sequence(fn, shp, dt, x, y, a, b, tol):
     return None, "ok" if not nested else "ok-blockarray-repacked"
 
 
-def probe(fn, shp, dt, rng, field, mode="random", info=None):
+LONG_HISTORY_CLASSES = {"NoJit", "XRayTransform3D", "AbelTransform", "OutsideLinop"}  # operators whose Python code runs at every call
+LONG_HISTORY_CALLS = 14
+
+
+def _long_history(fn, shp, dt, rng, x, y, a, b, tol):
+    """Longer call histories for operators whose Python code runs at every call: a seeded schedule of
+    LONG_HISTORY_CALLS calls over TWO reused NumPy buffers and fresh jax arrays, holding one of six values
+    (x, y, a x + b y, 0, 2 x, -y), buffers overwritten in place, values revisited (the same value in another object, the
+    same object with another value, the same object and value twice in a row); every call is compared with the
+    evaluation of that value on a fresh array taken BEFORE the schedule.  -> failing dict | None"""
+    import jax.numpy as jnp
+
+    if ops.is_nested(shp):
+        return None
+    vals = {"x": x[0], "y": y[0], "a x + b y": (a * x[0] + b * y[0]).astype(dt), "0": np.zeros_like(x[0]), "2 x": (2 * x[0]).astype(dt), "-y": (-y[0]).astype(dt)}
+    ref = {k: _apply(fn, shp, [v])[0] for k, v in vals.items()}
+    bufs = {"A": np.array(x[0], copy=True), "B": np.array(y[0], copy=True)}
+    names = list(vals)
+    trail = []
+    last = None
+    for step in range(LONG_HISTORY_CALLS):
+        which = ("A", "B", "fresh")[int(rng.integers(0, 3))]
+        if last is not None and rng.random() < 0.2:
+            which, vn = last  # the same object holding the same value again
+        else:
+            vn = names[int(rng.integers(0, len(names)))]
+        if which == "fresh":
+            arg = jnp.asarray(vals[vn])
+        else:
+            bufs[which][...] = vals[vn]
+            arg = bufs[which]
+        last = (which, vn)
+        trail.append(f"{which}:{vn}")
+        got = np.array(ops.unpack(fn(arg))[0], copy=True)
+        d = _lin_defect([got], [ref[vn]])
+        if d > 8 * tol:
+            def enc(ls):
+                return [{"shape": list(np.shape(l)), "re": np.real(l).ravel().tolist(), "im": (np.imag(l).ravel().tolist() if np.iscomplexobj(l) else None)} for l in ls]
+
+            return {"what": f"call {step + 1} of a history (object {which} holding {vn}) != the value on a fresh array", "history": trail, "defect": d, "tol": tol, "mode": "history",
+                    "a": [float(np.real(a)), float(np.imag(a))], "b": [float(np.real(b)), float(np.imag(b))], "x": enc(x), "y": enc(y), "lhs": enc([got]), "rhs": enc([ref[vn]])}
+    return None
+
+
+def probe(fn, shp, dt, rng, field, mode="random", info=None, long_history=False):
     """one probe of additivity + homogeneity and of A(0) = 0.  -> (failing dict | None, nontrivial: bool)"""
     cplx_scalars = field == "C"
     shapes = ops.leaf_shapes(shp)
@@ -285,6 +333,12 @@ def probe(fn, shp, dt, rng, field, mode="random", info=None):
             info["inplace"] = status
         if bad is not None:
             return bad, nontrivial
+        if long_history and status.startswith("ok"):
+            bad = _long_history(fn, shp, dt, rng, x, y, a, b, tol)
+            if info is not None:
+                info["history"] = "stale" if bad else "ok"
+            if bad is not None:
+                return bad, nontrivial
     return None, nontrivial
 
 
@@ -326,7 +380,7 @@ def oracle_for(rng):
         fld = tr.field_of(A)
         for mode in ("random", "negative", "large", "basis", "cancel", "ones", "tiny", "small", "random", "random", "nan"):
             try:
-                bad, _ = probe(fn, shp, dt, rng, fld, mode)
+                bad, _ = probe(fn, shp, dt, rng, fld, mode, long_history=case["cls"] in LONG_HISTORY_CLASSES)
             except Exception as e:  # noqa: BLE001
                 return {"cls": case["cls"], "config": case["config"], "view": case["view"], "raised": repr(e)[:300]}
             if bad is not None:
@@ -366,8 +420,9 @@ def generate(ctx):
         t = time.time()
         try:
             info = {}
-            bad, nontrivial = probe(fn, shp, dt, ctx.rng, tr.field_of(A), "random", info)
-            rec["probe"] = {"bad": bad, "nontrivial": nontrivial, "dtype": np.dtype(dt).name, "nested": ops.is_nested(shp), "inplace": info.get("inplace", "not-reached")}
+            bad, nontrivial = probe(fn, shp, dt, ctx.rng, tr.field_of(A), "random", info, long_history=rec["cls"] in LONG_HISTORY_CLASSES)
+            rec["probe"] = {"bad": bad, "nontrivial": nontrivial, "dtype": np.dtype(dt).name, "nested": ops.is_nested(shp), "inplace": info.get("inplace", "not-reached"),
+                            "history": info.get("history")}
         except Exception as e:  # noqa: BLE001
             rec["probe"] = {"raised": repr(e)[:200]}
         probe_time[0] += time.time() - t
@@ -375,6 +430,8 @@ def generate(ctx):
     instances = {}
     fid_time = [0.0]
     fid_seen = set()
+    fam_of = {}
+    fam_runs = _STATE["fam_runs"] = []
 
     def on_program(rec, prog, fn, shp, dt):
         """translator fidelity: the emitted IR, executed equation by equation with the real JAX primitives
@@ -384,10 +441,19 @@ def generate(ctx):
 
         import jaxpr_table as tb
 
+        import jaxpr_family as fam
+
         special = prog.unrolled > 0 or any(p.split("#")[0] in (ir.PMAP_IN, ir.PMAP_OUT, "gather[fill]", ir.SCAN_INDEX) for p in prog.prims)
         key = prog.key()
         if key in fid_seen:
+            rec["in_family"] = fam_of.get(key)
             return
+        # is every equation an instance of the family whose class facts are PROVED (Proofs/JaxprFamily.lean)?
+        fam_of[key] = rec["in_family"] = fam.program_in_family(prog)
+        if not fam_of[key]:
+            for ex in prog.exec:
+                if ex[0] != "lit" and not fam.supported(ex[1]):
+                    ctx.count("outside-proved-family:" + ex[1]["name"].split("#")[0])
         if not special and ctx.rng.random() > (FIDELITY_SHARE_THOROUGH if ctx.thorough else FIDELITY_SHARE_QUICK):
             return
         fid_seen.add(key)
@@ -404,6 +470,9 @@ def generate(ctx):
                 if any(np.any(np.asarray(v) != 0) for v in z0):
                     d = float("inf")
             tol = max(_tol(dt), _tol(ref[0].dtype) if ref and ref[0].size else 0.0)
+            if fam_of.get(key):
+                # keep what the whole-program run under the proved family needs (stream 9, executed in correspond())
+                fam_runs.append({"rec": rec, "prog": prog, "exec": list(prog.exec), "x": x, "ref": ref, "tol": tol})
             rec["fidelity"] = {"defect": d, "tol": tol, "neqns": len(prog.eqns), "special": special, "folded": prog.folded, "inlined": prog.inlined,
                                "unrolled": prog.unrolled, "nontrivial": any(np.any(np.asarray(p) != 0) for p in ref)}
         except Exception as e:  # noqa: BLE001
@@ -511,6 +580,8 @@ def _probes(ctx, oracle_rng):
         ctx.count(f"probe-dtype:{pr['dtype']}")
         ctx.count("probe-blockarray" if pr["nested"] else "probe-array")
         ctx.count("probe-inplace-buffer:" + str(pr.get("inplace", "n/a")))
+        if pr.get("history"):
+            ctx.count(f"probe-long-history({LONG_HISTORY_CALLS} calls):" + pr["history"])
         bad = pr["bad"]
         if bad is not None:
             bad.update(case)
@@ -891,6 +962,54 @@ def _table_validation(ctx):
     }
 
 
+def _family_programs(ctx, model):
+    """9. whole programs under the proved family: Lean's `run` with the interpretation `famDen` (at ℂ: `Fam.famInterp`,
+    sound for every table, so `check p = linC` gives linearity of that very `run` with no hypothesis) is executed by the
+    driver at complex floats and must reproduce the scico operator on a random input.  Also counts how many translated
+    programs consist of family instances only ("proved outright") and which primitives keep the others outside."""
+    import jaxpr_family as fam
+
+    recs = [r for r in _STATE.get("records", []) if r.get("status") == "ok"]
+    progs = {}
+    for r in recs:
+        if "in_family" in r and r["in_family"] is not None:
+            progs.setdefault(r["phash"], r["in_family"])
+    nin = sum(1 for v in progs.values() if v)
+    views_in = sum(1 for r in recs if r.get("in_family"))
+    ctx.count("programs-proved-outright", nin)
+    ctx.count("programs-proved-given-primitive-table", len(progs) - nin)
+    import time
+
+    t0, budget = time.time(), (240.0 if ctx.thorough else 30.0)
+    for e in sorted(_STATE.get("fam_runs", []), key=lambda e: len(e["prog"].eqns)):
+        r, prog = e["rec"], e["prog"]
+        if time.time() - t0 > budget:
+            ctx.count("family-program-skipped-by-time-budget")
+            continue
+        prog.exec = e["exec"]
+        case = {"cls": r["cls"], "config": r["config"], "view": r["view"]}
+        try:
+            got = fam.run_program(prog, e["x"], model, [(np.shape(t), np.asarray(t).dtype) for t in e["ref"]])
+        except fam.Unsupported as ex:
+            ctx.count("family-program-unsupported:" + str(ex).split(" ")[0])
+            prog.exec = None
+            continue
+        prog.exec = None
+        d = _lin_defect(got, e["ref"])
+        ctx.count("family-program-run:" + ("<=10" if len(prog.eqns) <= 10 else "<=40" if len(prog.eqns) <= 40 else "<=100" if len(prog.eqns) <= 100 else ">100") + "-eqns")
+        ctx.case({"family_program": f"{r['cls']}.{r['view']}", "neqns": len(prog.eqns), "defect": d}, ("famrun",) + _key(r), sample_every=13)
+        if not d <= 8 * e["tol"]:
+            ctx.disagree("jaxpr.family.program", case, f"defect {d}", "run famInterp == operator",
+                         note="Lean's run of the translated program under the proved family interpretation differs from the operator")
+    _STATE["fam_runs"] = []
+    ctx.extra["proved_outright"] = {
+        "distinct_programs": len(progs), "programs_all_equations_in_proved_family": nin, "programs_needing_the_primitive_table": len(progs) - nin,
+        "operator_views_proved_outright": views_in, "operator_views_total": len(recs),
+        "whole_programs_run_in_lean_against_the_operator": sum(v for k, v in ctx.hist.items() if k.startswith("family-program-run:")),
+        "primitives_outside_the_family": {k.split(":", 1)[1]: v for k, v in ctx.hist.items() if k.startswith("outside-proved-family:")},
+    }
+
+
 def _family_tie(ctx, model):
     """8. JAX primitive instance == Lean `applyDescG rows` (the sparse-matrix family PROVED linear in
     Proofs/JaxprArray.lean), rows built from the static parameters by harness/jaxpr_family.py; exact comparison on
@@ -900,8 +1019,8 @@ def _family_tie(ctx, model):
 
     rng = ctx.rng
     seen = set()
-    todo = [("coverage", lab, i) for lab, i in tb.coverage_instances()[0] if i["cls"] == ir.LINALL]
-    insitu = [i for i in _STATE.get("instances", {}).values() if i["cls"] == ir.LINALL]
+    todo = [("coverage", lab, i) for lab, i in tb.coverage_instances()[0] if i["cls"] in tb.LINEAR_CLASSES]
+    insitu = [i for i in _STATE.get("instances", {}).values() if i["cls"] in tb.LINEAR_CLASSES]
     order = rng.permutation(len(insitu)).tolist() if insitu else []
     todo += [("insitu", insitu[k].get("user", "?"), insitu[k]) for k in order]
     limit = FAMILY_THOROUGH if ctx.thorough else FAMILY_QUICK
@@ -913,7 +1032,7 @@ def _family_tie(ctx, model):
         seen.add(sig)
         if source == "insitu" and done >= limit:
             break
-        st, d = fam.compare(inst, rng, model)
+        st, d = fam.compare(inst, rng, model) if inst["cls"] == ir.LINALL else fam.compare_any(inst, rng, model)
         name = inst["name"].split("#")[0]
         if st == "ok":
             ctx.count(f"family-tie-ok:{name}")
@@ -940,7 +1059,7 @@ def correspond(ctx, model):
     timing = ctx.extra.setdefault("timing_s", {})
     for name, fn in (("corpus", lambda: _corpus(ctx, oracle)), ("mirror_vs_lean", lambda: _mirror_vs_lean(ctx, model)),
                      ("probes", lambda: _probes(ctx, ctx.rng)), ("synthetic_scalar", lambda: _synthetic_scalar(ctx, model)),
-                     ("synthetic_jax", lambda: _synthetic_jax(ctx, model)), ("table_validation", lambda: _table_validation(ctx)), ("fidelity", lambda: _fidelity(ctx)), ("family_tie", lambda: _family_tie(ctx, model))):
+                     ("synthetic_jax", lambda: _synthetic_jax(ctx, model)), ("table_validation", lambda: _table_validation(ctx)), ("fidelity", lambda: _fidelity(ctx)), ("family_tie", lambda: _family_tie(ctx, model)), ("family_programs", lambda: _family_programs(ctx, model))):
         t = time.time()
         fn()
         timing[name] = round(time.time() - t, 1)
@@ -1061,8 +1180,10 @@ def replay(ctx, model, case):
         a, b = complex(*c["a"]), complex(*c["b"])
         if a.imag == 0 and b.imag == 0:
             a, b = a.real, b.real
-        if c.get("mode") == "inplace":
+        if c.get("mode") in ("inplace", "history"):
             bad, _ = _inplace_sequence(fn, shp, dt, x, y, a, b, _tol(dt))
+            if bad is None and c.get("mode") == "history":
+                bad = _long_history(fn, shp, dt, ctx.rng, x, y, a, b, _tol(dt))
             print("replay:", "property FAILS on implementation (reused buffer)" if bad else "no failure at this input", (bad or {}).get("what"))
             if bad:
                 ctx.violation({"kind": "failing-input", "failing": c}, True, "replay")
